@@ -266,3 +266,47 @@ def run(prog, chk):
     skip = [h for h in walk_no_defs(ld.node) if isinstance(h, ast.ExceptHandler)]
     chk.ob("R6.load-skips-invalid-lines", "load", len(skip) == 1 and unparse(skip[0].type) == "SSHException" and all(isinstance(s, ast.Continue) for s in skip[0].body),
            ld.loc, "a line that fails to parse is skipped, the rest is still read")
+    _add_replaces_same_type_only(prog, chk)
+
+
+def _add_replaces_same_type_only(prog, chk):
+    """R5: HostKeys.add(hostname, keytype, key) replaces the key of an entry that lists the host AND holds a key of that
+    type; in every other case the new (host, key) is appended - evaluated over all placements of one or two existing
+    entries from {lists the host / does not} x {same type / other type}.  Otherwise a second key type for a known host is
+    silently dropped and lookup, check and save disagree with what the caller added."""
+    f = prog.func("HostKeys.add")
+    ps = f.params()
+    kinds = [(h, t) for h in (True, False) for t in (True, False)]
+    bad = None
+    n = 0
+    for k in (1, 2):
+        for combo in itertools.product(kinds, repeat=k):
+            n += 1
+            entries = []
+            for (lists, same) in combo:
+                ktype = "ssh-ed25519" if same else "ssh-rsa"
+                entries.append(Obj(hostnames=["host.example"] if lists else ["other.example"], key=Obj(name=ktype, get_name=(lambda ktype=ktype: ktype), tag="old")))
+            before = [(tuple(e.hostnames), e.key.tag) for e in entries]
+            selfo = Obj(_entries=entries)
+            newkey = Obj(name="ssh-ed25519", get_name=lambda: "ssh-ed25519", tag="new")
+            made = []
+
+            def mk(names, key, made=made):
+                o = Obj(hostnames=list(names), key=key)
+                made.append(o)
+                return o
+            it = Interp(intrinsics={"HostKeyEntry": mk}, arith=False)
+            try:
+                kind, val = it.call_function(f.node, {ps[0]: selfo, ps[1]: "host.example", ps[2]: "ssh-ed25519", ps[3]: newkey})
+            except Refuse as e:
+                raise AnalysisError("HostKeys.add", "not evaluable: %s" % (e,))
+            hit = [i for i, (lists, same) in enumerate(combo) if lists and same]
+            after = [(tuple(e.hostnames), e.key.tag) for e in selfo._entries]
+            if hit:
+                want = list(before)
+                want[hit[0]] = (before[hit[0]][0], "new")
+            else:
+                want = before + [(("host.example",), "new")]
+            if (kind != "return" or after != want) and bad is None:
+                bad = "existing entries %s: afterwards %s, want %s" % (["%s/%s" % ("lists-host" if l else "other-host", "same-type" if s_ else "other-type") for (l, s_) in combo], after, want)
+    chk.ob("R5.add-replaces-same-host-and-type-only", "HostKeys.add", bad is None, f.loc, "%d placements evaluated%s" % (n, "" if bad is None else "; first failing: " + bad))
